@@ -240,9 +240,10 @@ def gen_current_spec(rnd, names, solve_time, cur_units, dynamic=None):
                 a = gen_amplitude(rnd, scale)
                 z[names[0]], z[names[1]] = a, -a
             vals[rnd.randrange(nseg)] = z
-        return {"kind": "pw", "times": times, "values": vals}
+        return {"kind": "pw", "times": times, "values": vals, "reuse_dict": rnd.random() < 0.3}
     return {
         "kind": "ramp",
+        "reuse_dict": rnd.random() < 0.3,
         "I0": balanced_currents(rnd, names, scale),
         "I1": balanced_currents(rnd, names, scale),
         "tmin": r3(0.1 * solve_time),
